@@ -617,6 +617,14 @@ class C18(Check):
             seen.add(s)
             self._count("escape")
             yield {"s": s, "exp": None, "u": "mut", "kind": "escape"}
+        # invalid regular expressions by error class (classified by calling re.compile directly): re.error with a
+        # position, re.error without a position (variable-width look-behind), OverflowError; valid ones for contrast
+        for s, cls in bad_regex_family():
+            if s in seen:
+                continue
+            seen.add(s)
+            self._count("badre:" + cls)
+            yield {"s": s, "exp": None, "u": "mut", "kind": "badre:" + cls}
         # random token soup: no structure assumed at all
         soup = ["a", "b*", "and", "or", "not", " ", "  ", "\t", "(", ")", "@", "'", "\"", "\\", ":", "/", "i", "@id_glob@", "@id_re/i@",
                 "@data_glob:", "@data_literal/:", "k", "@x", "'a b'", "\"q\\\"\"", "\x85", "\u2003", "*", "[", "{9}", "\\\\"]
@@ -766,6 +774,14 @@ class C18(Check):
     def extra_checks(self, tier, rng, report):
         fails = report.setdefault("extra_failing", [])
         report["hist"].update(self._kinds or {})
+        classes = {}
+        for pat in BAD_REGEXES:
+            classes[regex_class(pat)] = classes.get(regex_class(pat), 0) + 1
+        report["extra"]["invalid_regex_classes"] = classes
+        for need in ("error-with-pos", "error-without-pos", "overflow", "valid"):
+            if not classes.get(need):
+                fails.append(({"_extra": True, "what": "invalid-regex family has no member of class " + need},
+                              ["generator:invalid_regex_classes"], None, None))
         # 1. the model's is_space against str.isspace on every code point
         top = 0x110000
         cps = list(range(top)) if tier != "quick" else list(range(0x3200)) + list(range(0x3200, top, 61))
@@ -833,6 +849,42 @@ def escape_family():
                                 yield core
                                 yield "a or not (" + core + " and b)"
                                 yield core + " or b"
+
+
+BAD_REGEXES = ["(", ")", "[", "*a", "a**", "a{2,1}", "\\", "(?z)", "a)", "[b-a]", "(?P<1>a)", "\\1", "(?P<n>a)(?P<n>b)",
+               "(?P=x)", "(?i", "(?(9)a)", "+", "(?a)(?L)x", "a b(", "x'y[", 'x"y\\',
+               "(?<=a*)b", "x(?<!y+)z", "(?<=web|db)-.*", "(?<!a|bc)d", "(?<=a+)", "(?<=a b*)'c",
+               "a{4294967296}", "a{1,4294967296}", "(a){4294967296}", "a b{99999999999}",
+               "a{3}", "(?<=ab)c", "(?i)a", "a|b"]
+
+
+def regex_class(pat):
+    try:
+        re.compile(pat)
+        return "valid"
+    except re.error as e:
+        return "error-with-pos" if getattr(e, "pos", None) is not None else "error-without-pos"
+    except OverflowError:
+        return "overflow"
+    except RecursionError:
+        return "recursion"      # boundary: not generated
+    except Exception as e:      # noqa
+        return "other-" + type(e).__name__
+
+
+def bad_regex_family():
+    for pat in BAD_REGEXES:
+        cls = regex_class(pat)
+        if cls == "recursion":
+            continue
+        for host in ("@id_re@", "@id_re/i@", "@data_re:k@", "@data_re/i:'k'@", "@id_glob@", "@data_literal:k@"):
+            for st in (UNQ, SQ, DQ):
+                if st == UNQ and not unquoted_legal(pat):
+                    continue
+                core = host + quote(pat, st)
+                for s in (core, "a or not (" + core + " and b)", core + " or b", "b and " + core, "(" + core + ")",
+                          "not " + core + " or (", core + " and"):
+                    yield s, cls
 
 
 def has_bare_keyword(s):
